@@ -211,19 +211,16 @@ func (p *Program) renamedConst(cs ConstSite, want string, sites []ConstSite) (st
 		if pinned[name] {
 			continue
 		}
+		// (a variable may have become a constant or the reverse: the value is what counts)
 		switch scope.Lookup(name).(type) {
 		case *types.Const:
-			if cs.Kind == "const" {
-				if v, ok := p.ConstValue(cs.Pkg, name); ok && v == want {
-					names = append(names, name)
-				}
+			if v, ok := p.ConstValue(cs.Pkg, name); ok && v == want {
+				names = append(names, name)
 			}
 		case *types.Var:
-			if cs.Kind == "var" {
-				if g := p.Global(cs.Pkg, name); g != nil {
-					if init := p.globalInit(g); init != nil && short(init.String()) == want {
-						names = append(names, name)
-					}
+			if g := p.Global(cs.Pkg, name); g != nil {
+				if init := p.globalInit(g); init != nil && short(init.String()) == want {
+					names = append(names, name)
 				}
 			}
 		}
